@@ -152,6 +152,50 @@ CHECKS = {
                       "file-system model: the final record is that of some serial order (no lost update, no wiped field) and a reader sees a whole record.",
         "level_note": _TRUST,
     },
+    "C13": {
+        "pkgs": ["./pkg/workceptor"],
+        "bounds": "two allocations with an ARBITRARY 8-character identifier stream against an index and a data directory holding other units (at most 3 "
+                  "collisions in a row); two concurrent allocations drawing the same identifier, 2 pre-emptions; release (forced or not, removal "
+                  "failing or not); restart on a command-unit record in each of the 5 states with arbitrary output size, then release",
+        "no_native": ["Verif_C13_unique_id"],
+        "schedule_harnesses": ["Verif_C13_concurrent_allocation"],
+        "assumptions": ["processes are not modelled: exec.Cmd.Start fails, no runner process writes concurrently"],
+        "outside": ["status regressions caused by the detached runner process racing with the daemon", "kubernetes / python units",
+                    "real process signalling on cancel", "more than two concurrent submitters"],
+        "level_text": "Bounded symbolic execution of generateUnitID/AllocateUnit (arbitrary random stream, index and directory pre-state, and two "
+                      "concurrent callers under every schedule in the bound), BaseWorkUnit.Release and the restart path over the file-system model: "
+                      "IDs and directories are never shared, a successful release removes files and index entry, a restart never moves a unit to an "
+                      "earlier stage or changes a finished unit.",
+        "level_note": _TRUST,
+    },
+    "C15": {
+        "pkgs": ["./pkg/workceptor"],
+        "bounds": "one command of each kind (submit, cancel, release, force-release, results) x connection kind {unix, tcp, \"\", unixgram, mesh} x "
+                  "verifying / non-verifying type x signature {absent, empty, token} x key {unset, set, unloadable} x token verdict {error, "
+                  "not valid, valid} x audience {none, [A], [B], [B,A], [\"\"], [a]} - exhaustive over this finite shape (6300 paths)",
+        "no_native": ["Verif_C15_gate"],
+        "assumptions": ["golang-jwt ParseWithClaims and certificates.LoadPublicKey replaced by verdict models (the JWT library's signature, expiry and "
+                        "algorithm checks are trusted)"],
+        "outside": ["the JWT library itself (signature verification, expiry evaluation, algorithm confusion)", "key file parsing",
+                    "the claims minted by createSignature (RS512, audience, expiry)"],
+        "level_text": "Bounded symbolic execution of the real InitFromJSON/ControlFunc/processSignature/ShouldVerifySignature/VerifySignature: a "
+                      "command for a verifying type that arrives over anything but the Unix socket takes effect only if the token parses, is valid "
+                      "and names this node; a token for a non-verifying type is refused; every refusal happens before any effect or disk access.",
+        "level_note": _TRUST,
+    },
+    "C19": {
+        "pkgs": ["./pkg/workceptor"],
+        "bounds": "remote submission with 1-3 parameters whose names are arbitrary printable-ASCII strings of 8, 7 and 3 bytes (every letter case "
+                  "of secret_x and secret_), arbitrary 1-byte values, with / without a TLS client profile; status, list and status-after-restart",
+        "assumptions": ["parameter names are ASCII (Unicode case folding outside the claim)"],
+        "outside": ["non-ASCII parameter names", "the JSON text of the response (the response value is inspected)",
+                    "confidentiality of the on-disk record (stored unredacted by design)", "what the remote node does with the parameters"],
+        "level_text": "Bounded symbolic execution of the real submit path (InitFromJSON, ControlFunc, AllocateRemoteUnit), remoteUnit.Status / "
+                      "UnredactedStatus, unitStatusForCFR and the restart scan: no response ever contains a parameter whose name starts with "
+                      "secret_ in any letter case, every other parameter is reported unchanged, and a secret without TLS is refused before "
+                      "anything is stored or sent.",
+        "level_note": _TRUST,
+    },
     "C10": {
         "pkgs": ["./pkg/netceptor"],
         "bounds": "step lemma for all 256 budgets, arbitrary routing table (no route / via B / via C / via unconnected X) for source and "
